@@ -10,6 +10,7 @@ opaque string; `Name.render` is the string the real code uses (the tie tabulates
                        tabulated into `J2O.Gen.C05` and compared on every run)
 * `reconcile`       — the Cast/keep decision of `IRContext.add_outputs_from_vars`
 * `bindInputs`, `prune`, `alwaysKeep` — input binding and `prune_unused_graph_inputs_ir`
+                       (`alwaysKeepOld`/`pruneOld`: the rule before the fix dfda5c9, example only)
 * `materialize`     — `_materialize_input_params_on_ir`
 * `resolvePositional` — `_resolve_positional_inputs`
 * `rename`          — `_apply_custom_io_names_on_ir` with its three collision checks
@@ -67,16 +68,18 @@ def Name.render : Name → String
   | .pos i true => "in_" ++ toString i ++ "_nchw"
   | .other s => s
 
-/-- The rule of `prune_unused_graph_inputs_ir._should_always_keep` as the code has it today:
-    `in_<digits>` only — the NCHW spelling is NOT matched (known defect, see `Props/C05.lean`). -/
+/-- The rule of `prune_unused_graph_inputs_ir._should_always_keep` (since /repo dfda5c9):
+    `in_<digits>` and `in_<digits>_nchw` — every name the input binding gives a positional
+    argument — and the empty name. -/
 def alwaysKeep : Name → Bool
-  | .pos _ false => true
-  | .pos _ true => false
+  | .pos _ _ => true
   | .other s => s.isEmpty
 
-/-- The rule with the candidate fix (`notes/C05-fix.diff`). -/
-def alwaysKeepFixed : Name → Bool
-  | .pos _ _ => true
+/-- The rule BEFORE dfda5c9 (kept only for the labelled example in `Props/C05.lean`): the NCHW
+    spelling was not matched, so an unused NCHW-flagged input was pruned. -/
+def alwaysKeepOld : Name → Bool
+  | .pos _ false => true
+  | .pos _ true => false
   | .other s => s.isEmpty
 
 structure GInput where
@@ -96,7 +99,7 @@ def pruneWith (keep : Name → Bool) (ins : List GInput) : List GInput :=
   ins.filter (fun g => keep g.name || g.used)
 
 def prune : List GInput → List GInput := pruneWith alwaysKeep
-def pruneFixed : List GInput → List GInput := pruneWith alwaysKeepFixed
+def pruneOld : List GInput → List GInput := pruneWith alwaysKeepOld
 
 /-- `_materialize_input_params_on_ir`: a parameter name becomes a graph input (appended, in the
     order of the mapping) iff it is referenced by the graph and is neither an input nor an
